@@ -97,7 +97,10 @@ func (x *Ctx) Choose(n int, label string) int {
 func (x *Ctx) Class(name string) { x.classes[name] = true }
 
 // NonTrivial marks the case as non-trivial by the property's rule; why names the clause.
-func (x *Ctx) NonTrivial(why string) { x.nontrivial = append(x.nontrivial, why); x.classes["nontrivial:"+why] = true }
+func (x *Ctx) NonTrivial(why string) {
+	x.nontrivial = append(x.nontrivial, why)
+	x.classes["nontrivial:"+why] = true
+}
 
 // Known records that the trigger of a listed finding was observed and still misbehaves.
 func (x *Ctx) Known(id, what string) {
